@@ -110,6 +110,24 @@ func checkCallbackError(c *Ctx, fn *ssa.Function, cb *ssa.Call, what string) {
 	}
 	c.Check("R18.2", "an error from the "+what+" stops the parse", cb.Pos(), tested, "the callback's error is not tested, or the non-nil branch does not return")
 	c.Check("R18.2", "the error from the "+what+" is what the caller gets", cb.Pos(), errReachesReturn(fn, cb), "the returned error does not derive from the callback's error")
+	// stronger, where it can be decided: every error returned where the callback failed carries the callback's own error
+	for _, b := range fn.Blocks {
+		ret, ok := b.Instrs[len(b.Instrs)-1].(*ssa.Return)
+		if !ok || len(ret.Results) == 0 || !controlledNil(b, cb, true) {
+			continue
+		}
+		res, why := errWraps(fn, retOperand(ret, len(ret.Results)-1), cb, 0)
+		key := "the error returned when the " + what + " fails carries that very error"
+		switch res {
+		case 1:
+			c.Pass("R18.2", key, ret.Pos(), "")
+		case 0:
+			c.Fail("R18.2", key, ret.Pos(), "on the path where the callback failed the caller gets "+why+": errors.Is(err, callbackErr) no longer holds and what the callback reported is lost",
+				"a callback that returns fmt.Errorf(\"context: %w\", &parser.ParseError{...})")
+		default:
+			c.Undecided("R18.2", key, ret.Pos(), why)
+		}
+	}
 }
 
 // checkEvaluatePlumbing: R18.3 on the AST of the function that adapts the evaluation callback.
